@@ -45,7 +45,28 @@ def check(pid, tier, regen=False):
             R.add_known(fid["id"], fid["what"])
             continue
         R.add_violation({"property": pid, "clause": clause, "event": ev})
-    R.coverage = {"evaluations": st["events"], "distinct_nontrivial": st["nontrivial"],
+    # values served from caches after multi-step histories (branches, adds that keep / drop cached models): the small-width
+    # solver traces are validated against SolverAbs; only the clauses that say "this value is not a value the expression
+    # takes" belong to C26
+    from . import eng_solver as ES
+    hj = ES.jobs_generic(ES.PLAIN + ES.COMPOSITE + [["SolverHybrid", {}]], "c26h", 30, 300, n=8, branchy=True)(tier, seed)
+    hbad, hstats = C.pipeline("w_solver", hj, "TraceSolver.tla")
+    hst = C.merge_stats(hstats)
+    hfind = C.load_findings(pid) + C.load_findings("C12")
+    for _, tr, clause, extra in hbad:
+        if clause not in ("eval-infeasible", "eval-on-unsat", "answer-on-unsat", "min", "max"):
+            continue
+        k = int(extra)
+        if clause in ("min", "max"):
+            # only "not a feasible value" is C26's business (a feasible but non-optimal value is C11's)
+            continue
+        fid = ES.match_finding(hfind, tr, k, clause)
+        if fid:
+            R.add_known(fid["id"], fid["what"])
+            continue
+        R.add_violation({"property": pid, "clause": clause, "tid": tr["tid"], "step": k,
+                         "event": ES.describe(tr["ev"][k - 1]), "history": [ES.describe(e) for e in tr["ev"][:k]]})
+    R.coverage = {"solver_history_calls": hst.get("calls", 0), "evaluations": st["events"], "distinct_nontrivial": st["nontrivial"],
                   "rule": "one event per returned value (eval / batch_eval / min / max, signed and unsigned, before and "
                           "after other queries) on Solver, SolverCacheless, SolverComposite, SolverHybrid, "
                           "SolverReplacement at widths 1..256, plus FP (double/float incl. NaN, signed zeros, infinities, "
